@@ -225,7 +225,8 @@ fn compare(path: &str, plan: &Plan, ghosts: &[String], layout: &Layout, text: &s
     sanitised_seen
 }
 
-const PROFILES: [Profile; 9] = [
+const PROFILES: [Profile; 10] = [
+    Profile::WideStage,
     Profile::Names,
     Profile::Names,
     Profile::Names,
